@@ -1874,6 +1874,8 @@ func (c *Ctx) ruleBlockLock(rule string) {
 				}
 				pos := c.M.InstrPos(in)
 				switch {
+				case (what == "encode" || what == "decode (blocking read)") && mutex != stateMutex && c.mutexGuardsNoState(ro.clientT, mutex):
+					c.R.Ok(rule, k, pos, "blocking operation under a client mutex", "no mutable field of the client is accessed under this mutex: it only makes users of the connection take turns, and blocks nobody who needs the client's state")
 				case what == "encode":
 					// the state mutex (the one that guards the pending table) must not be held across the transport write:
 					// the read loop needs it to deliver what the peer must get rid of before it reads again
@@ -2106,4 +2108,31 @@ func (c *Ctx) sigSitesConfined() bool {
 		}
 	}
 	return n > 0
+}
+
+// mutexGuardsNoState: while mutex is held, no field of the struct that is ever modified after construction is accessed
+// (the CBOR stream endpoints themselves aside).
+func (c *Ctx) mutexGuardsNoState(target *types.Named, mutex string) bool {
+	accs := c.collectAccesses(target, mutex)
+	mutable := map[string]bool{}
+	for _, a := range accs {
+		if !a.constr && (a.write || a.mutates) {
+			mutable[a.field] = true
+		}
+	}
+	n := 0
+	for _, a := range accs {
+		if a.constr || !a.locked {
+			continue
+		}
+		ft := fieldType(target, a.field)
+		if ft == nil || isNamed(ft, "sync", "Mutex") || isNamed(ft, "cbor/v2", "Encoder") || isNamed(ft, "cbor/v2", "Decoder") {
+			continue
+		}
+		n++
+		if mutable[a.field] {
+			return false
+		}
+	}
+	return true
 }
